@@ -3,8 +3,8 @@
 package c13
 
 import (
-	"os"
 	"fmt"
+	"os"
 	"strings"
 
 	"hx/lib"
